@@ -847,6 +847,7 @@ func (r *recorder) Now() time.Time {
 type recWriter struct {
 	r         *recorder
 	h         http.Header
+	pre       http.Header // what the application had put into the header map before the library was called
 	Status    []int
 	Bodies    [][]byte
 	digestIdx int
@@ -854,7 +855,20 @@ type recWriter struct {
 
 const digestPlaceholder = "SHA-256=<base64 sha256 of the body written>"
 
+// prePopulate: the application (or a mux in front) has already set headers of its own - stale values of the three the
+// library writes and one it never touches.
+func (w *recWriter) prePopulate() {
+	w.h.Set("Content-Type", "text/html; charset=stale")
+	w.h.Set("Date", "Thu, 01 Jan 1970 00:00:00 GMT")
+	w.h.Set("Digest", "SHA-256=stale")
+	w.h.Set("X-Application", "kept")
+	w.pre = w.h.Clone()
+}
+
 func (w *recWriter) Header() http.Header { return w.h }
+
+// flushHeaders records every header whose values are not the ones the application had put there; a header with several
+// values is recorded with all of them (the first one is what a client reads).
 func (w *recWriter) flushHeaders() {
 	keys := []string{"Content-Type", "Date", "Digest", "Location"}
 	var extra []string
@@ -865,15 +879,23 @@ func (w *recWriter) flushHeaders() {
 	}
 	sort.Strings(extra)
 	for _, k := range append(keys, extra...) {
-		if v := w.h.Get(k); v != "" {
-			if k == "Digest" {
-				w.digestIdx = len(w.r.trace)
-			}
-			w.r.rec(entry{Kind: "setheader", Name: k, Strs: []string{v}, Ans: answer{Kind: "ok"}})
-			w.h.Del(k)
+		vs := w.h.Values(k)
+		if len(vs) == 0 || (w.pre != nil && strings.Join(vs, "\x00") == strings.Join(w.pre.Values(k), "\x00")) {
+			continue
 		}
+		if k == "Digest" {
+			w.digestIdx = len(w.r.trace)
+		}
+		w.r.rec(entry{Kind: "setheader", Name: k, Strs: []string{strings.Join(vs, " | ")}, Ans: answer{Kind: "ok"}})
+		if w.pre == nil {
+			w.pre = http.Header{}
+		}
+		w.pre[k] = append([]string{}, vs...)
 	}
 }
+
+// finish: headers the library left in the map without writing a status are part of what it did to the response
+func (w *recWriter) finish() { w.flushHeaders() }
 func (w *recWriter) WriteHeader(code int) {
 	w.flushHeaders()
 	w.Status = append(w.Status, code)
